@@ -89,26 +89,32 @@ Value& MemberPUTExpression::value(Context& ctx) const
       switch (rv_type.major())
       {
       case Type::INTEGER:
-        if (a1_type == Type::NUMERIC)
+        if (a1_type == Type::NUMERIC && rv_type.level() == 1)
         {
-          rv->at(p).deref_value().swap(Value(Value::integerOf(*a1.numeric())));
+          if (a1.isNull())
+            rv->at(p).deref_value().swap(Value(Value::type_integer));
+          else
+            rv->at(p).deref_value().swap(Value(Value::integerOf(*a1.numeric())));
           return val;
         }
         else if (a1.type() == Type::NO_TYPE)
         {
-          rv->at(p).deref_value().swap(Value(Value::type_integer));
+          rv->at(p).deref_value().swap(Value(rv_type.levelDown()));
           return val;
         }
         break;
       case Type::NUMERIC:
-        if (a1_type == Type::INTEGER)
+        if (a1_type == Type::INTEGER && rv_type.level() == 1)
         {
-          rv->at(p).deref_value().swap(Value(Numeric(*a1.integer())));
+          if (a1.isNull())
+            rv->at(p).deref_value().swap(Value(Value::type_numeric));
+          else
+            rv->at(p).deref_value().swap(Value(Numeric(*a1.integer())));
           return val;
         }
         else if (a1.type() == Type::NO_TYPE)
         {
-          rv->at(p).deref_value().swap(Value(Value::type_numeric));
+          rv->at(p).deref_value().swap(Value(rv_type.levelDown()));
           return val;
         }
         break;
